@@ -19,7 +19,9 @@ LEAVES = [1, "x.y", [1], schema.int]
 KEYS = ["a", "b", ""]
 KEYS_T = ["a", "b", "", "a b"]
 SEPS = [".", "__", "/"]
-BOUND = {"quick": (3, 3), "thorough": (4, 4)}    # (max leaves, max depth)
+# (max leaves, max depth).  Thorough: 4 leaves to depth 3 over 3 keys (57 850 trees, 1.2e8 cases)
+# plus 4 leaves to depth 2 over 4 keys; (4, 4) over 4 keys is 6.7e6 trees / 1.5e10 cases - not run.
+BOUND = {"quick": (3, 3), "thorough": (4, 3)}
 
 
 @functools.lru_cache(None)
@@ -98,10 +100,13 @@ def same(a, b):
 
 def tree_list(tier):
     nl, dp = BOUND[tier]
-    keys = tuple(KEYS_T if tier == "thorough" else KEYS)
     out = []
     for n in range(1, nl + 1):
-        out += [(n, m) for m in trees(n, dp, keys)]
+        out += [(n, m) for m in trees(n, dp, tuple(KEYS))]
+    if tier == "thorough":
+        seen = {repr(m) for _, m in out}
+        for n in range(1, nl + 1):
+            out += [(n, m) for m in trees(n, 2, tuple(KEYS_T)) if repr(m) not in seen]
     return out
 
 
@@ -200,7 +205,9 @@ def run(tier, seed):
                 "non-trivial = more than one leaf",
         "exhaustive": True,
         "bounds": {"tier": tier, "max_leaves": BOUND[tier][0], "max_depth": BOUND[tier][1],
-                   "keys": KEYS_T if tier == "thorough" else KEYS, "separators": SEPS},
+                   "keys": KEYS, "separators": SEPS,
+                   "also": ("4 leaves, depth 2, keys " + repr(KEYS_T)) if tier == "thorough" else None,
+                   "cross_separator_keys": list(KEYS_X)},
     }
     return acc, cov, ["mappings whose flattening makes two leaves collide on one flat key (only "
                       "possible with the empty key) are skipped",
